@@ -252,7 +252,7 @@ func main() {
 				all := append(sets, F)
 				names := []string{"AddRecord", "AddRecordWithExtraElements", "AddRecordV2", "mixed/reused", "fresh-replay"}
 				wantLen := m.length()
-				var ref []byte
+				var ref, firstMsg []byte
 				for si, s := range all {
 					if s.GetSetLength() != wantLen {
 						c.Violation(k, "setlength", fmt.Sprintf("after op %d (%s): %s set reports length %d, model 4+sum(records)=%d", i, o, names[si], s.GetSetLength(), wantLen), word)
@@ -317,7 +317,7 @@ func main() {
 							bad = true
 						}
 					}
-					// serialise the set as it is (CreateIPFIXMsg is exported and does not touch the set header)
+					// serialise the set as it is (CreateIPFIXMsg is exported)
 					msg, err := serialize(s)
 					if wantLen+16 > 65535 {
 						if err == nil {
@@ -344,8 +344,19 @@ func main() {
 						ref = refipfix.BuildMessage(0x01020304, 77, 1700000000, id, bytes.Join(m.recs, nil))
 						copy(ref[18:20], F.GetHeaderBuffer()[2:4]) // length field as the fresh replay set carries it (judged above)
 					}
-					if !bytes.Equal(msg, ref) {
-						c.Violation(k, "serialized-bytes", fmt.Sprintf("after op %d (%s): %s set serialises differently from the reference (%d vs %d bytes)", i, o, names[si], len(msg), len(ref)), word)
+					// the length field of the serialised set: as the set header carries it, or the true length
+					// (a serialiser may write it itself); everything else must be the reference encoding, and the
+					// add paths must serialise identically among themselves
+					same := len(msg) == len(ref) && bytes.Equal(msg[:18], ref[:18]) && bytes.Equal(msg[20:], ref[20:])
+					if same {
+						l := binary.BigEndian.Uint16(msg[18:20])
+						same = l == binary.BigEndian.Uint16(ref[18:20]) || l == uint16(wantLen)
+					}
+					if firstMsg == nil {
+						firstMsg = msg
+					}
+					if !same || !bytes.Equal(msg, firstMsg) {
+						c.Violation(k, "serialized-bytes", fmt.Sprintf("after op %d (%s): %s set serialises differently from the reference or from the %s set (%d vs %d bytes)", i, o, names[si], names[0], len(msg), len(ref)), word)
 						bad = true
 					}
 					c.Add("serialisations_compared", 1)
